@@ -93,6 +93,29 @@ pub fn run(ctx: &mut Ctx) -> Report {
 			signers.push(Signer { alg, name, key, remote: rem, cert, p, origin, truth_spki: None });
 		}
 	}
+	// keys as generation hands them out (for RSA only the aws-lc-rs build generates): the fixture
+	// keys above all came in through a loader
+	#[cfg(not(feature = "nocrypto"))]
+	for alg in keys::build_algs() {
+		let name = alg_name(alg).to_string();
+		let mut made: Vec<(String, Result<KeyPair, Error>)> = vec![(format!("generate_for({})", name), KeyPair::generate_for(alg))];
+		#[cfg(feature = "aws")]
+		if name.starts_with("rsa") {
+			made.push((format!("generate_rsa_for({}, 2048)", name), KeyPair::generate_rsa_for(alg, RsaKeySize::_2048)));
+		}
+		for (how, r) in made {
+			let Ok(k) = r else { continue };
+			let key = Arc::new(k);
+			let truth = openssl_spki_of_pkcs8(&key.serialize_der());
+			let mut p = PCert::empty();
+			p.serial = Some(vec![3]);
+			p.dn = Dn(vec![(DnT::Cn, DnV::Utf8(format!("issuer {} point starting (generated)", how)))]);
+			p.ca = Ca::Ca(None);
+			let Ok(Ok(cert)) = std::panic::catch_unwind(std::panic::AssertUnwindSafe(|| p.real().unwrap().self_signed(&key))) else { continue };
+			s.rep.count("generated_keys_as_signers");
+			signers.push(Signer { alg: key.algorithm(), name: alg_name(key.algorithm()).to_string(), key, remote: None, cert, p, origin: how, truth_spki: truth });
+		}
+	}
 	// remote keys whose public key starts in a way that looks like something else (the octet after
 	// the 04 of an uncompressed point being a length that fits, an ASN.1 tag, zero): what the
 	// artefact publishes is the key that signs
